@@ -882,7 +882,7 @@ fn check_written(c: &mut Case, t: &Table, w: &[u8], reference_len: usize) -> Opt
 // last: the stream must start with it, and - unless longer content was there before - be exactly as long as the size
 // law says. `out` is the result of one write on a fresh stream, already compared with the model by the caller.
 
-const HISTORY_SHAPES: [&str; 6] = ["twice-same", "smaller-then-full", "positioned-at-end-of-old-table", "positioned-inside-old-table", "positioned-past-end-of-empty-stream", "file-parsed-then-rewritten"];
+const HISTORY_SHAPES: [&str; 7] = ["twice-same", "smaller-then-full", "positioned-at-end-of-old-table", "positioned-inside-old-table", "positioned-past-end-of-empty-stream", "file-parsed-then-rewritten", "sink-accepting-short-writes"];
 
 #[allow(clippy::too_many_arguments)]
 fn check_writer_histories(c: &mut Case, t: &Table, m: &Meta, schema: &Schema, src: &RecordSet, out: &[u8], it: &mut Interner, rs: &mut Rng, file: &Path) {
@@ -917,7 +917,12 @@ fn check_writer_histories(c: &mut Case, t: &Table, m: &Meta, schema: &Schema, sr
     } else {
         let a = rs.usize(HISTORY_SHAPES.len());
         let b = (a + 1 + rs.usize(HISTORY_SHAPES.len() - 1)) % HISTORY_SHAPES.len();
-        vec![HISTORY_SHAPES[a], HISTORY_SHAPES[b]]
+        // (large tables: the short-write sink always, its string block is the one long write)
+        let mut v = vec![HISTORY_SHAPES[a], HISTORY_SHAPES[b]];
+        if !v.contains(&"sink-accepting-short-writes") {
+            v.push("sink-accepting-short-writes");
+        }
+        v
     };
     for shape in shapes {
         c.count(&format!("writer_histories|{shape}"), 1);
@@ -933,6 +938,18 @@ fn check_writer_histories(c: &mut Case, t: &Table, m: &Meta, schema: &Schema, sr
                 }
                 Ok((sink.into_inner(), out.len()))
             }),
+            "sink-accepting-short-writes" => {
+                let max = 1 + rs.usize(700);
+                trap(move || {
+                    let mut sink = vh_common::ShortIo::new(Cursor::new(Vec::new()), max);
+                    {
+                        let w = DbcWriter::new(&mut sink);
+                        let mut w = if m.explicit_writer_schema { w.with_schema(schema.clone()) } else { w };
+                        w.write_records(src)?;
+                    }
+                    Ok((sink.inner.into_inner(), 0))
+                })
+            }
             "smaller-then-full" => trap(|| {
                 let mut sink = Cursor::new(Vec::new());
                 {
